@@ -3,6 +3,20 @@
 package all
 
 import (
-	_ "verif/harness/internal/props/c11"
+	"verif/harness/internal/ev"
+	"verif/harness/internal/props/c11"
+	c11mysql "verif/harness/internal/props/c11/mysql"
 	_ "verif/harness/internal/props/c11/proxy"
 )
+
+// the wire layers of C11: PostgreSQL (plugged in by props/c11/proxy's init, which runs before this one), then MySQL
+// (Acra's SQL dialect is a process global, so the two run one after the other)
+func init() {
+	pg := c11.ProxyLayer
+	c11.ProxyLayer = func(r *ev.Run) {
+		if pg != nil {
+			pg(r)
+		}
+		c11mysql.Layer(r)
+	}
+}
